@@ -9,6 +9,7 @@ mod gen;
 mod out;
 mod physmem;
 mod pt;
+mod regs;
 mod trap;
 
 use out::Out;
@@ -72,6 +73,7 @@ fn main() {
             "C20" => addr::run_c20_pure(&mut o, args.seed, args.n),
             _ => usage(),
         },
+        "regs" => regs::run_regs(&mut o, args.seed, args.n),
         "ports" => cpufam::run_ports(&mut o, args.seed, args.n),
         "intr" => cpufam::run_intr(&mut o, args.seed, args.n),
         "flush" => cpufam::run_flush(&mut o, args.seed, args.n),
